@@ -5,7 +5,7 @@
 //   block-diagonal matrices and matrices with an exactly decoupled coordinate / an isolated diagonal entry, n = 5..8
 //   every nev in 1..n-1 (small n) and several (initial, maximal) search-space sizes, dense and sparse wrappers,
 //   rules {LargestAlge, SmallestAlge, LargestMagn, SmallestMagn}, tol in {1e-4, 1e-8, 1e-12},
-//   guesses: coordinate blocks (orthonormal), pair sums e_i+e_j and a badly scaled skewed block (full rank, not orthonormal).
+//   guesses: coordinate blocks (orthonormal), pair sums e_i+e_j a badly scaled skewed block (full rank, not orthonormal), a block with a repeated column and one with a zero column.
 #include "engine/common.h"
 #include "engine/oracle.h"
 #include "engine/alphabet.h"
@@ -112,6 +112,17 @@ static void run_subject(const MatL& A, const Mat& M, const std::string& desc, co
             Eigen::MatrixXd Sk = Eigen::MatrixXd::Zero(n, gs);
             for (int k = 0; k < gs; k++) { Sk(k, k) = 1 + 3 * k; Sk((k + 2) % n, k) += 0.5; Sk(0, k) += 0.25; }
             guesses.push_back({"skewed", Sk});
+            // exactly dependent columns: the same vector given twice, and a zero column (the solver has to orthonormalize
+            // whatever block it is handed; a dependent column must not survive as a zero/duplicate basis vector)
+            if (gs >= 2)
+            {
+                Eigen::MatrixXd Rp = Eigen::MatrixXd::Zero(n, gs), Zc = Eigen::MatrixXd::Zero(n, gs);
+                for (int k = 0; k < gs; k++) { Rp(k, k) = 1; Rp((k + 1) % n, k) = 0.5; Zc(k, k) = 1; Zc((k + 1) % n, k) = 0.5; }
+                Rp.col(gs - 1) = Rp.col(0);
+                Zc.col(gs - 1).setZero();
+                guesses.push_back({"repeated", Rp});
+                guesses.push_back({"zerocol", Zc});
+            }
         }
         // operation alphabet: (kind, rule, tol): kind 0 = compute, kind 1.. = compute_with_guess(guess kind-1)
         struct OpD { int g, rule, tol; };
